@@ -2,7 +2,22 @@
 // Drives `parallel_map` directly: item-dependent delays (out-of-order completion), a slow
 // consumer, early drops at every position.  Prints one JSON line per case on stdout
 // (`cargo test -- --nocapture`); the Python side compares with M-PMAP and the oracle.
-use sedpack_rs::parallel_map::parallel_map;
+use sedpack_rs::parallel_map::{parallel_map, verif};
+
+// The order of channel operations recorded by the SEDPACK_VERIF hook since the last call (the Python side sets
+// SEDPACK_VERIF=1 for this test binary), as "r0 s0 n0 d ..." for replay on M-PMAP.
+fn trace_line(kind: &str, n: u64, threads: usize, k: usize) {
+    let tr: Vec<String> = verif::take().iter().map(|(c, w)| format!("{}{}", c, w)).collect();
+    println!("PMAPTRACE {{\"kind\":\"{}\",\"n\":{},\"threads\":{},\"k\":{},\"hook\":{},\"trace\":\"{}\"}}", kind, n, threads, k, verif::enabled(), tr.join(" "));
+}
+
+fn quick(x: u64) -> u64 { x * 10 }
+
+fn slow_first(x: u64) -> u64 {
+    // the first worker is the slowest: everybody else runs ahead as far as the protocol lets them
+    if x % 3 == 0 { std::thread::sleep(std::time::Duration::from_millis(6)); }
+    x * 10
+}
 
 fn work(x: u64) -> u64 {
     // later items of a round finish first: completion order differs from input order
@@ -21,8 +36,15 @@ fn pmap_cases() {
     for n in [0u64, 1, 2, 3, 5, 8, 13] {
         for t in [1usize, 2, 3, 4, 9] {
             // full pass
+            let _ = verif::take();
             let out: Vec<u64> = parallel_map(work, 0..n, t).collect();
+            trace_line("full", n, t, 0);
             println!("PMAP {{\"kind\":\"full\",\"n\":{},\"threads\":{},\"out\":{:?}}}", n, t, out);
+            for f in [quick as fn(u64) -> u64, slow_first as fn(u64) -> u64] {
+                let out2: Vec<u64> = parallel_map(f, 0..n, t).collect();
+                trace_line("full", n, t, 0);
+                println!("PMAP {{\"kind\":\"full\",\"n\":{},\"threads\":{},\"out\":{:?}}}", n, t, out2);
+            }
             // early drop after k results
             for k in [0usize, 1, 2, (n as usize) / 2] {
                 if k as u64 > n { continue; }
@@ -30,6 +52,7 @@ fn pmap_cases() {
                 let mut got = Vec::new();
                 for _ in 0..k { if let Some(v) = it.next() { got.push(v); } }
                 drop(it);
+                trace_line("drop", n, t, k);
                 // `drop` joins every worker; a joined thread may still be listed in /proc/self/task for a moment
                 // (the joiner is woken before the kernel unlinks the task), so allow it a grace period
                 let mut alive = threads_now().saturating_sub(base);
@@ -45,7 +68,9 @@ fn pmap_cases() {
     }
     // many worker threads: more than any fixed cap an implementation might have, not a multiple of round numbers
     for (n, t) in [(150u64, 64usize), (150, 65), (150, 72), (200, 99), (150, 128), (70, 65)] {
+        let _ = verif::take();
         let out: Vec<u64> = parallel_map(|x| x * 10, 0..n, t).collect();
+        trace_line("full", n, t, 0);
         println!("PMAP {{\"kind\":\"full\",\"n\":{},\"threads\":{},\"out\":{:?}}}", n, t, out);
     }
     // a consumer that stalls between two calls (a slow training step)
